@@ -1112,11 +1112,14 @@ pub fn run(sc: &Scenario) -> (Vec<String>, Vec<String>) {
         if non_cancel.is_empty() || steps >= max_steps {
             break;
         }
-        let d: Decision = if let Some(it) = script.as_mut() {
-            match it.next() {
-                Some(s) => Decision::from_s(&s),
-                None => break,
-            }
+        let scripted = script.as_mut().and_then(|it| it.next());
+        if script.is_some() && scripted.is_none() {
+            // the dictated schedule is exhausted (the specification's behaviour is terminal there); whatever the real
+            // executor can still do - a task that was woken although the spec says it cannot go on - is run to the end
+            script = None;
+        }
+        let d: Decision = if let Some(s) = scripted {
+            Decision::from_s(&s)
         } else if first {
             Decision::Pick("main".into())
         } else {
